@@ -13,7 +13,8 @@ S2 == ""
 AllCodons == "TTTTTCTTATTGTCTTCCTCATCGTATTACTAATAGTGTTGCTGATGGCTTCTCCTACTGCCTCCCCCACCGCATCACCAACAGCGTCGCCGACGGATTATCATAATGACTACCACAACGAATAACAAAAAGAGTAGCAGAAGGGTTGTCGTAGTGGCTGCCGCAGCGGATGACGAAGAGGGTGGCGGAGGG"
 S3 == AllCodons \o "ATGATGGCTGCTGCTGCAAAAAAGTAA"
 S4 == AllCodons \o AllCodons \o "ctgctgctgctgctgCTTgaagaagagTGATGA"
-Seqs == {S1, S2, S3, S4}
+S5 == "AUGaugGCUuaaATGGCNatgUAA"                \* RNA spelling mixed in: only ATG, atg count
+Seqs == {S1, S2, S3, S4, S5}
 CountOf == [s \in Seqs |-> Count(s)]
 ASSUME AllCodonsOnce == Count(AllCodons) = Ones
 
